@@ -78,6 +78,13 @@ def table_by_execution(sym, mod, name):
     import ast as _ast
     env = {}
     fd = FD(max_steps=200000, resolver=module_resolver(sym, mod, symbolic=lambda n: Sym(n)))
+    # helper functions the module calls while building the table are interpreted (referenced as values they stay
+    # symbolic); functions defined inside them, too
+    called = {n.func.id for st in mod.tree.body if not isinstance(st, (_ast.FunctionDef, _ast.ClassDef))
+              for n in _ast.walk(st) if isinstance(n, _ast.Call) and isinstance(n.func, _ast.Name)}
+    for st in mod.tree.body:
+        if isinstance(st, _ast.FunctionDef) and st.name in called:
+            fd.functions[st.name] = st
     seen = False
     for st in mod.tree.body:
         mentions = any(isinstance(n, _ast.Name) and n.id == name for n in _ast.walk(st))
